@@ -97,8 +97,12 @@ var c02HTMLs = []string{
 	"<span>é中\U0001F600</span>", "<a href=\"?a=1&amp;b=2\">l</a>", "&", "&amp", "<", "unterminated <b>", "<table><tr><td>c</td></tr></table>", "<script>var a = '{{ secret }}';</script>", "<div v-if=\"f\">still here</div>", "<template include=\"x.vuego\"></template>",
 }
 
+// value part: sinks and static neighbourhoods (pad: blanks at both ends of the static part)
+var c02Sinks = []string{"text", "attr", "attr2", "bound", "bracket"}
+var c02Nbhs = []string{"none", "plain", "entity", "attrs", "pad"}
+
 func (p *c02) Plan(ctx core.Ctx) int {
-	return p.nStatic(ctx) + len(p.corpus) + len(c02Vals)*3*4 + len(c02HTMLs)*3
+	return p.nStatic(ctx) + len(p.corpus) + len(c02Vals)*len(c02Sinks)*len(c02Nbhs) + len(c02HTMLs)*3
 }
 
 func (p *c02) Gen(ctx core.Ctx, i int) any {
@@ -126,11 +130,12 @@ func (p *c02) Gen(ctx core.Ctx, i int) any {
 		return c02Case{Part: "corpus", File: p.corpus[i]}
 	}
 	i -= len(p.corpus)
-	if i < len(c02Vals)*12 {
-		v := c02Vals[i/12]
-		return c02Case{Part: "value", Sink: []string{"text", "attr", "bound"}[(i%12)/4], Nbh: c01Nbhs[i%4], Val: &v}
+	if per := len(c02Sinks) * len(c02Nbhs); i < len(c02Vals)*per {
+		v := c02Vals[i/per]
+		return c02Case{Part: "value", Sink: c02Sinks[(i%per)/len(c02Nbhs)], Nbh: c02Nbhs[i%len(c02Nbhs)], Val: &v}
+	} else {
+		i -= len(c02Vals) * per
 	}
-	i -= len(c02Vals) * 12
 	return c02Case{Part: "vhtml", HTML: c02HTMLs[i/3], Wrap: []string{"div", "template", "section"}[i%3]}
 }
 
@@ -528,6 +533,10 @@ func (p *c02) execValue(o *core.Obs, c c02Case) {
 		// white-space character must survive, not only the words around it
 		a, _ := s[0].Attr(sinkAttr)
 		full := lDec + fmt.Sprint(val) + rDec
+		if a != full && oracle.NormText(a) == oracle.NormText(full) {
+			// same words, other blanks: the static neighbours (or the value's own blanks) were trimmed or collapsed
+			o.Fail(c, sig+"/attr-blanks-changed", "attribute %s holds %q, expected the static neighbours plus the value exactly: %q\noutput: %q", sinkAttr, a, full, out)
+		}
 		for _, ws := range []string{"\r", "\n", "\t"} {
 			if strings.Count(a, ws) != strings.Count(full, ws) {
 				o.Fail(c, sig+"/attr-whitespace-changed", "attribute %s holds %q, expected neighbours + value %q: the number of %q differs\noutput: %q", sinkAttr, a, full, ws, out)
